@@ -8,7 +8,6 @@ import (
 
 	"github.com/ChrisTrenkamp/xsel/node"
 	"github.com/ChrisTrenkamp/xsel/store"
-	"golang.org/x/text/language"
 )
 
 type Function func(context Context, args ...Result) (Result, error)
@@ -418,22 +417,26 @@ func lang(context Context, args ...Result) (Result, error) {
 }
 
 func checkLang(srcStr, targStr string) Bool {
-	srcLang := language.Make(srcStr)
-	srcRegion, srcRegionConf := srcLang.Region()
+	src := asciiLower(srcStr)
+	targ := asciiLower(targStr)
 
-	targLang := language.Make(targStr)
-	targRegion, targRegionConf := targLang.Region()
-
-	if srcRegionConf == language.Exact && targRegionConf != language.Exact {
-		return Bool(false)
+	if src == targ {
+		return Bool(true)
 	}
 
-	if srcRegion != targRegion && srcRegionConf == language.Exact && targRegionConf == language.Exact {
-		return Bool(false)
+	return Bool(strings.HasPrefix(targ, src+"-"))
+}
+
+func asciiLower(str string) string {
+	ret := []byte(str)
+
+	for i, c := range ret {
+		if c >= 'A' && c <= 'Z' {
+			ret[i] = c + ('a' - 'A')
+		}
 	}
 
-	_, _, conf := language.NewMatcher([]language.Tag{srcLang}).Match(targLang)
-	return Bool(conf >= language.High)
+	return string(ret)
 }
 
 func number0(context Context, args ...Result) (Result, error) {
